@@ -50,6 +50,17 @@ def rules(ck, P):
         uses = ir.contains(b["body"], lambda y: y.get("k") == "mcall" and y.get("name") in ("as_slice", "as_ref", "as_mut_slice", "into_vec") and bp and ir.local_hid(y["recv"]) == bp[0]["hid"])
         ck.check(bool(bp) and uses, "E-COMP-LEAF", q + "|input", "the codec reads the function's blob parameter", "the codec input is not the blob parameter", ir.loc(b))
 
+        # the whole payload goes through the codec: the stream is drained (read_to_end / the library's one-shot function) and no
+        # adaptor limits how much is read or written (Read::take, a fixed-size read, truncate/resize of the output, sub-slicing the input)
+        LIMITERS = ("take", "read_exact", "truncate", "resize", "split_at", "split_off", "drain", "get", "read", "chunks", "first", "last")
+        lim = [y["name"] for y in ir.walk_nodes(b["body"]) if y.get("k") == "mcall" and y.get("name") in LIMITERS and
+               any(t in (y.get("q") or "") for t in ("std::io::Read::", "alloc::vec::Vec", "[T]::", "core::slice", "std::io::Take"))]
+        sliced = [ir.loc(y) for y in ir.walk_nodes(b["body"]) if y.get("k") == "index" and ir.strip(y["i"]).get("k") == "struct" and "Range" in (ir.strip(y["i"]).get("q") or "")]
+        drains = [y for y in ir.walk_nodes(b["body"]) if (y.get("k") == "mcall" and y.get("name") == "read_to_end") or
+                  (y.get("k") == "call" and (y.get("q") or "").rsplit("::", 1)[-1] in ("BrotliCompress", "BrotliDecompress", "copy"))]
+        ck.check(not lim and not sliced and len(drains) == 1, "E-COMP-LEAF", q + "|whole-payload", "the codec stream is drained completely; nothing limits how many bytes pass",
+                 "the payload does not pass the codec as a whole (limiting calls %s, sub-slices at %s, %d draining calls): large tiles are silently cut" % (lim, sliced, len(drains)), ir.loc(b))
+
     def fresh():
         return comp.CompInterp(P, leaves)
 
